@@ -82,7 +82,7 @@ def gen_case(rnd, tier, ks=None):
             ops.append(["del", k.to_bytes(ks, "big").hex()])
     return {"ks": ks, "default": default.hex(), "tracked": tracked.to_bytes(ks, "big").hex(),
             "initial": (bytes([rnd.randrange(1, 256)]) * 3).hex(), "ops": ops, "pseed": rnd.randrange(1 << 30),
-            "full_lists": rnd.random() < 0.3}
+            "full_lists": rnd.random() < 0.3, "observe_p": rnd.choice([1.0, 1.0, 0.5, 0.2])}
 
 
 def run_case(case, ctx):
@@ -102,6 +102,9 @@ def run_case(case, ctx):
     proof = cut(SparseMerkleProof, tb, cut(smt.get, tb), cut(smt.branch, tb))
     ctx.count("ks_%d" % ks)
     bps = []
+    import random as _random
+    rnd2 = _random.Random(case.get("pseed", 0))
+    opi = 0
     for op in case["ops"]:
         kb = unhx(op[1])
         k = int.from_bytes(kb, "big")
@@ -146,11 +149,20 @@ def run_case(case, ctx):
             if case.get("full_lists"):
                 cut(proof.update, kb, v, upd)
             else:
-                r = cut(proof.update, kb, v, (), expect=(ValidationError,))
+                # the tracked key's own update needs no hashes at all: a list pruned to ANY
+                # length (as a stream pruned for several subscribers would be) must do
+                L = rnd2.choice([0, 0, 1, 2, depth // 2, depth - 1])
+                r = cut(proof.update, kb, v, upd[:L], expect=(ValidationError,))
                 if isinstance(r, Raised):
-                    raise Violation("smtproof-same-key-needs-hashes", "update of the tracked key itself rejected without node hashes")
-                ctx.count("same_key_no_hashes")
+                    raise Violation("smtproof-same-key-needs-hashes", "update of the tracked key itself rejected with a node list pruned to %d of %d hashes" % (L, depth))
+                ctx.count("same_key_no_hashes" if L == 0 else "same_key_pruned_list")
         ctx.count("updates_fed")
+        # not every stream is looked at after every update: reading root_hash (or anything else)
+        # between two updates is a different execution from feeding them back to back
+        opi += 1
+        if case.get("observe_p", 1.0) < 1.0 and opi < len(case["ops"]) and rnd2.random() > case["observe_p"]:
+            ctx.count("updates_not_observed")
+            continue
         # ---- in sync with the tree?
         cur = m.get(tracked, default)
         st = RefSMTState(ref, m)
